@@ -378,6 +378,13 @@ func genSeqPlan(prop string, seed uint64, tier string) *Plan {
 	if prop == "C13" && len(p.Groups) > 0 && r.Bool(1, 3) {
 		p.Extra["benignCollide"] = 1
 		c.CheckVHash = false
+		// (automatic hint merges: see genConcPlan)
+		if r.Bool(1, 6) {
+			p.Extra["autoMerge"] = 1
+			c.MergeInterval = 1
+		} else {
+			c.MergeInterval = 1000
+		}
 	}
 	restarts := 0
 	earlyRestart := 0
